@@ -14,6 +14,7 @@ import (
 	"github.com/PapaCharlie/go-restli/v2/restli/batchkeyset"
 	"github.com/PapaCharlie/go-restli/v2/restlicodec"
 	"github.com/PapaCharlie/go-restli/v2/restlidata"
+	"github.com/PapaCharlie/go-restli/v2/restlidata/generated/com/linkedin/restli/common"
 	"verifgen/gen/fam"
 	"verifgen/hx"
 )
@@ -262,6 +263,9 @@ func runC09(cfg *hx.Config) {
 	}
 	batchIdHistories(cfg, rep)
 	rawRecords(cfg, rep)
+	batchBodies(cfg, rep)
+	pathSpecHistory(cfg, rep)
+	concurrentBytes(cfg, rep)
 	// query parameters supplied in shuffled orders
 	r := hx.NewRand(cfg.Seed + 77)
 	for k := 0; k < 200; k++ {
@@ -481,5 +485,167 @@ func rawRecords(cfg *hx.Config, rep *hx.Report) {
 			}
 		}
 		rep.Evaluations++
+	}
+}
+
+// batch request bodies written WITH excluded fields (what BatchUpdate / BatchCreate send when the resource has read-only fields):
+// {"entities":{key:entity,...}} through a Go map, every entity in its own scope.  The same map must always give the same bytes, and
+// every entity must be there with exactly the non-excluded fields, whichever field is excluded (first / last written, none).
+func batchBodies(cfg *hx.Config, rep *hx.Report) {
+	r := hx.NewRand(cfg.Seed + 313)
+	for round := 0; round < 6; round++ {
+		n := 2 + r.Intn(5)
+		entities := map[int64]*fam.Inner{}
+		for len(entities) < n {
+			s := genString(r, true)
+			entities[int64(r.Intn(1000))] = &fam.Inner{A: int32(r.Intn(100)), S: &s}
+		}
+		for _, ds := range [][]string{nil, {"s"}, {"a"}, {"a", "s"}} {
+			var spec restlicodec.PathSpec
+			if ds != nil {
+				spec = restlicodec.NewPathSpec(ds...)
+			}
+			var outs []string
+			for k := 0; k < 24; k++ {
+				w := restlicodec.NewCompactJsonWriterWithExcludedFields(spec)
+				err := w.WriteMap(func(kw func(string) restlicodec.Writer) error {
+					return common.MarshalBatchEntities(entities, kw("entities"))
+				})
+				if err != nil {
+					panic(err)
+				}
+				outs = append(outs, w.Finalize())
+			}
+			rep.Evaluations++
+			rep.Count("batch-body-with-exclusion")
+			cd := map[string]interface{}{"entities": entities, "excluded": ds, "out": outs[0]}
+			for _, o := range outs[1:] {
+				if o != outs[0] {
+					cd["other_out"] = o
+					rep.Fail("canon:batch-body-differs", "the same batch entities encode to different bodies (with excluded fields)", "v2/restlicodec/writer.go:SetScope / WriteGenericMap", cd, nil)
+					break
+				}
+			}
+			var got struct {
+				Entities map[string]map[string]interface{} `json:"entities"`
+			}
+			if err := json.Unmarshal([]byte(outs[0]), &got); err != nil || len(got.Entities) != len(entities) {
+				rep.Fail("canon:batch-body-entities-lost", "a batch body written with excluded fields does not hold every entity", "v2/restlicodec/writer.go:SetScope / WriteGenericMap", cd, nil)
+				continue
+			}
+			excl := map[string]bool{}
+			for _, d := range ds {
+				excl[d] = true
+			}
+			for k, e := range entities {
+				m := got.Entities[fmt.Sprint(k)]
+				_, hasA := m["a"]
+				_, hasS := m["s"]
+				if m == nil || hasA == excl["a"] || hasS == excl["s"] || (hasS && m["s"] != *e.S) {
+					rep.Fail("canon:batch-body-wrong-fields", "an entity of a batch body written with excluded fields does not hold exactly its non-excluded fields", "v2/restlicodec/writer.go:SetScope / WriteGenericMap", cd, nil)
+					break
+				}
+			}
+		}
+	}
+}
+
+// building PathSpecs (of any shape: directives that are prefixes of each other, as the generator emits for a read-only `a` next to a
+// create-only `a/b`; repeated, empty, wildcard directives) is an unrelated operation: the encodings of other values under other
+// specs must be what they were before
+func pathSpecHistory(cfg *hx.Config, rep *hx.Report) {
+	s1, s2 := "bob", "x"
+	vals := []*fam.Inner{{A: 42, S: &s1}, {A: 7, S: &s2}, {A: 1}}
+	specs := [][]string{{"a"}, {"s"}, {"a", "s"}, {"nosuch"}}
+	digest := func() []string {
+		var out []string
+		for _, v := range vals {
+			for _, ds := range specs {
+				for _, f := range []int{0, 2} {
+					w := newWriter(f, restlicodec.NewPathSpec(ds...))
+					if err := v.MarshalRestLi(w); err != nil {
+						panic(err)
+					}
+					out = append(out, w.Finalize())
+				}
+			}
+		}
+		return out
+	}
+	base := digest()
+	for _, unrelated := range [][]string{{"location", "location/latitude"}, {"a/b", "a"}, {"x", "x"}, {"*", "*/y"}, {"p/*/q", "p/*"}, {""}, {"s/deeper", "s"}} {
+		func() {
+			defer func() { _ = recover() }()
+			_ = restlicodec.NewPathSpec(unrelated...)
+		}()
+		rep.Evaluations++
+		rep.Count("pathspec-history")
+		again := digest()
+		for i := range base {
+			if again[i] != base[i] {
+				rep.Fail("canon:differs-after-building-a-pathspec", "the encoding of a value under an exclusion spec changed after an UNRELATED PathSpec was built in the same process", "v2/restlicodec/pathspec.go:NewPathSpec",
+					map[string]interface{}{"unrelated_spec": unrelated, "before": base[i], "after": again[i]}, nil)
+				return
+			}
+		}
+	}
+}
+
+// bytes / fixed values serialised from several goroutines at once give what they give sequentially
+func concurrentBytes(cfg *hx.Config, rep *hx.Report) {
+	r := hx.NewRand(cfg.Seed + 515)
+	type job struct {
+		v    *fam.Prims
+		want [2]string
+	}
+	var jobs []job
+	for i := 0; i < 8; i++ {
+		b := make([]byte, 1500+r.Intn(1000))
+		for k := range b {
+			b[k] = byte(r.Intn(256))
+		}
+		v := &fam.Prims{S: "s", Y: b}
+		var j job
+		j.v = v
+		for f := 0; f < 2; f++ {
+			w := newWriter(f, nil)
+			if err := v.MarshalRestLi(w); err != nil {
+				panic(err)
+			}
+			j.want[f] = w.Finalize()
+		}
+		jobs = append(jobs, j)
+	}
+	bad := make(chan string, 64)
+	done := make(chan bool)
+	for g := range jobs {
+		go func(j job) {
+			defer func() { done <- true }()
+			for k := 0; k < 300; k++ {
+				f := k % 2
+				w := newWriter(f, nil)
+				if err := j.v.MarshalRestLi(w); err != nil {
+					panic(err)
+				}
+				if out := w.Finalize(); out != j.want[f] {
+					select {
+					case bad <- formats[f]:
+					default:
+					}
+					return
+				}
+			}
+		}(jobs[g])
+	}
+	for range jobs {
+		<-done
+	}
+	rep.Evaluations++
+	rep.Count("concurrent-bytes")
+	select {
+	case f := <-bad:
+		rep.Fail("canon:concurrent-bytes-differ", "a bytes value serialised while other goroutines serialise other bytes values differs from its sequential encoding", "v2/restlicodec/json_writer.go:WriteBytes",
+			map[string]interface{}{"format": f, "goroutines": len(jobs), "bytes_len": "1500-2500"}, nil)
+	default:
 	}
 }
